@@ -42,9 +42,17 @@ class _Handler(BaseHTTPRequestHandler):
         req = {"method": self.command, "path": self.path, "headers": {k.lower(): v for k, v in self.headers.items()},
                "raw": raw.decode("utf-8", "replace"), "json": body, "t": time.time()}
         with srv.lock:
-            req["seq"] = len(srv.requests)
-            srv.requests.append(req)
-        action = srv.script(req) if srv.script else ("reply", "OK")
+            # a request of an earlier session (a client that was still running when its case ended)
+            # must not leak into the current recording
+            stale = not self.path.startswith("/s%d/" % srv.session)
+            if not stale:
+                req["seq"] = len(srv.requests)
+                srv.requests.append(req)
+            script = srv.script
+        if stale:
+            self.close_connection = True
+            return
+        action = script(req) if script else ("reply", "OK")
         while action and action[0] == "delay":
             time.sleep(action[1])
             action = action[2]
@@ -105,16 +113,18 @@ class FakeAI:
         self.httpd.requests = []
         self.httpd.lock = threading.Lock()
         self.httpd.script = None
+        self.httpd.session = 0
         self.thread = threading.Thread(target=self.httpd.serve_forever, kwargs={"poll_interval": 0.05}, daemon=True)
         self.thread.start()
 
     @property
     def url(self):
-        return "http://127.0.0.1:%d/v1" % self.httpd.server_address[1]
+        return "http://127.0.0.1:%d/s%d/v1" % (self.httpd.server_address[1], self.httpd.session)
 
     def begin(self, script=None):
         """Start a recording session: clears the log and installs the reply script."""
         with self.httpd.lock:
+            self.httpd.session += 1
             self.httpd.requests = []
             self.httpd.script = script
 
